@@ -37,6 +37,7 @@
 #include "boundary.h"
 #include "tree.h"
 #include "integrator_trace.h"
+#include "integrator_mercurius.h"
 #ifdef MPI
 #include "communication_mpi.h"
 #endif // MPI
@@ -847,6 +848,16 @@ int reb_collision_resolve_merge(struct reb_simulation* const r, struct reb_colli
     pi->m  = pi->m + pj->m;
     pi->r  = cbrt(pi->r*pi->r*pi->r + pj->r*pj->r*pj->r);
     pi->last_collision = r->t;
+    // The merged particle is larger and more massive than its progenitors. MERCURIUS only searches for collisions among
+    // particles that are within their critical radii, which depend on the radius and the mass.
+    if (r->integrator == REB_INTEGRATOR_MERCURIUS){
+        struct reb_integrator_mercurius* const rim = &(r->ri_mercurius);
+        if (rim->mode==1 && i<rim->N_allocated_dcrit){
+            rim->dcrit[i] = reb_integrator_mercurius_calculate_dcrit_for_particle(r, i);
+        }else{
+            rim->recalculate_r_crit_this_timestep = 1;
+        }
+    }
     // The merged particle is larger than its progenitors. Keep the upper bounds used by the tree searches valid.
     if (pi->r>=r->max_radius0){
         r->max_radius1 = r->max_radius0;
